@@ -49,8 +49,12 @@ META = dict(
     needs_impl=True,
     rule="parse tie: atoms  rel(linear term over x0..x3, constant)  of classes difference / sum / scaled / three / four variables, both "
          "sorts, coefficients in +-{1,2,3,1/2}, variables and constants met in either order; non-trivial = atom not folded to a constant. "
-         "scripts: lib/scriptgen_oof.py (60% difference logics incl. families that are unsatisfiable only through the out-of-fragment "
-         "atom, 10% QF_UF with arithmetic, 30% QF_LRA/QF_LIA non-linear or mixed), each also under its embedding logic; distinct = script text",
+         "scripts: lib/scriptgen_oof.py (45% difference logics incl. families that are unsatisfiable only through the out-of-fragment "
+         "atom, 20% atoms over terms that are not variables - applications of uninterpreted functions/predicates, ite, div/mod by a "
+         "constant - under QF_RDL/QF_IDL/QF_LRA/QF_LIA incl. families unsatisfiable through congruence only, 7% QF_UF with arithmetic, "
+         "28% QF_LRA/QF_LIA non-linear or mixed); 40% of the scripts are rewritten into multi-step scripts (second/third check-sat, "
+         "push/assert/check/pop/check, the popped assertions asserted again, one check-sat per assertion) and EVERY check-sat answer is "
+         "judged against the assertions accepted and active at that point; each script also under its embedding logic; distinct = (script, check index)",
 )
 
 SAMPLES = {}
@@ -286,65 +290,72 @@ def analyse(ctx, d, cmds, text, logic_run, rc, out, err, is_twin):
     rejected = [k for k, (c, a) in enumerate(zip(cmds, resp)) if a.startswith("(error") and c.startswith(("(assert", "(declare", "(define"))]
     info["rejected"] = rejected
     info["errors"] = [(cmds[k], a) for k, a in enumerate(resp) if a.startswith("(error")]
-    ci = [k for k, c in enumerate(cmds) if c == "(check-sat)"][0]
-    ans = resp[ci].strip()
-    info["answer"] = ans
-    model_sx = None
-    mi = [k for k, c in enumerate(cmds) if c == "(get-model)"]
-    if mi and ans == "sat":
-        try:
-            sx = smtlib.read_all(resp[mi[0]])
-            if sx and isinstance(sx[0], list) and not (sx[0] and sx[0][0] == "error"):
-                model_sx = sx[0]
-        except smtlib.ParseError:
-            model_sx = None
-    # the assertion set the answer is about: commands answered with an error do not count
-    rej_decl = [cmds[k] for k in rejected if cmds[k].startswith("(declare")]
+    cis = [k for k, c in enumerate(cmds) if c == "(check-sat)"]
+    answers = [resp[k].strip() for k in cis]
+    info["answers"] = answers
+    info["answer"] = answers[-1] if answers else None
+    # the assertion sets the answers are about: commands answered with an error do not count
     eff = [c for k, c in enumerate(cmds) if k not in rejected]
-    if rej_decl:
-        # an assertion using a rejected declaration must itself have been rejected; otherwise the answer is about an unknown symbol
-        pass
     eff_text = "\n".join(eff) + "\n"
-    status = "rejected" if rejected or (ans.startswith("(error")) else "accepted"
-    info["status"] = status
-    verdict = None
-    if ans in ("sat", "unsat"):
-        try:
-            qs = sc.Script(eff_text).run()
-            q = [x for x in qs if x[0] == "check-sat"][0]
-            frames, sig = q[3], q[4]
-            A = sc.active_assertions(frames)
-            decls = sc.decl_lines(eff_text)
-            for attempt in range(4):
+    info["status"] = "rejected" if rejected or any(x.startswith("(error") for x in answers) else "accepted"
+    info["verdicts"] = []
+    try:
+        qs = [x for x in sc.Script(eff_text).run() if x[0] == "check-sat"]
+        decls = sc.decl_lines(eff_text)
+    except Exception as e:
+        qs, decls = None, None
+        glue_error = "glue: %s" % e
+    steps = d.get("steps") or "single"
+    for j, (k, ans) in enumerate(zip(cis, answers)):
+        verdict, detail, A = None, None, []
+        if ans in ("sat", "unsat"):
+            model_sx = None
+            if ans == "sat" and k + 1 < len(cmds) and cmds[k + 1] == "(get-model)":
                 try:
-                    if ans == "sat":
-                        verdict, detail = sc.judge_sat(sig, d["oracle_logic"], decls, A, model_sx)
-                    else:
-                        verdict, detail = sc.judge_unsat(sig, d["oracle_logic"], decls, A)
-                except OSError as e:
-                    verdict, detail = "undecided", "glue: %s" % e
-                if "No such file" not in str(detail):
-                    break
-                time.sleep(3)      # the shared evaluator binary is being rebuilt by a concurrent check
-        except Exception as e:      # glue could not interpret the effective script: leave undecided, say so
-            verdict, detail = "undecided", "glue: %s" % e
-        info["verdict"] = verdict
-        if verdict == "undecided" and len([x for x in ctx.notes if x.startswith("undecided")]) < 4:
-            ctx.note("undecided %s answer of %s (%s): %s" % (ans, logic_run, cls, str(detail)[:200]))
-        if not is_twin:
-            if ans == "sat" and verdict == "refuted-oracles":
-                ctx.violation("wrong-sat:%s" % tag,
-                              "%s script with %s, every command accepted%s: answered sat; the accepted assertions are unsatisfiable "
-                              "(own model rejected by the verified evaluator: %s; z3 and cvc5 both unsat, ORACLE-ONLY for unsatisfiability)"
-                              % (logic, cls, "" if not rejected else " except %d" % len(rejected), detail),
-                              dict(script="\n".join(cmds) + "\n", answer=ans, accepted_assertions=[sx_str(a) for a in A], stdout=out))
-            elif ans == "unsat" and verdict in ("refuted-certified", "refuted-oracles"):
-                ctx.violation("wrong-unsat:%s" % tag,
-                              "%s script with %s: answered unsat; the accepted assertions are satisfiable (%s)"
-                              % (logic, cls, "model validated by the Coq-extracted evaluator" if verdict == "refuted-certified" else "z3 and cvc5 both sat; ORACLE-ONLY"),
-                              dict(script="\n".join(cmds) + "\n", answer=ans, accepted_assertions=[sx_str(a) for a in A], model=detail, stdout=out))
-    kind = "%s:%s:%s%s" % ("twin" if is_twin else "oof", tag, status, (":" + ans + ":" + str(verdict)) if ans in ANS else ":no-answer")
-    ctx.case(key=key, nontrivial=True, kind=kind)
+                    sx = smtlib.read_all(resp[k + 1])
+                    if sx and isinstance(sx[0], list) and not (sx[0] and sx[0][0] == "error"):
+                        model_sx = sx[0]
+                except smtlib.ParseError:
+                    model_sx = None
+            if qs is None or j >= len(qs):
+                verdict, detail = "undecided", glue_error if qs is None else "glue: check-sat not found"
+            else:
+                frames, sig = qs[j][3], qs[j][4]
+                A = sc.active_assertions(frames)
+                for attempt in range(4):
+                    try:
+                        if ans == "sat":
+                            verdict, detail = sc.judge_sat(sig, d["oracle_logic"], decls, A, model_sx)
+                        else:
+                            verdict, detail = sc.judge_unsat(sig, d["oracle_logic"], decls, A)
+                    except OSError as e:
+                        verdict, detail = "undecided", "glue: %s" % e
+                    except Exception as e:      # glue could not interpret the effective script: leave undecided, say so
+                        verdict, detail = "undecided", "glue: %s" % e
+                        break
+                    if "No such file" not in str(detail):
+                        break
+                    time.sleep(3)      # the shared evaluator binary is being rebuilt by a concurrent check
+            if verdict == "undecided" and len([x for x in ctx.notes if x.startswith("undecided")]) < 4:
+                ctx.note("undecided %s answer of %s (%s): %s" % (ans, logic_run, cls, str(detail)[:200]))
+            if not is_twin:
+                where = "check-sat %d of %d (%s)" % (j + 1, len(cis), steps)
+                if ans == "sat" and verdict == "refuted-oracles":
+                    ctx.violation("wrong-sat:%s" % tag,
+                                  "%s script with %s, %s: answered sat; the assertions accepted and active there are unsatisfiable "
+                                  "(own model rejected by the verified evaluator: %s; z3 and cvc5 both unsat, ORACLE-ONLY for unsatisfiability)"
+                                  % (logic, cls, where, detail),
+                                  dict(script="\n".join(cmds) + "\n", check_index=j + 1, answers=answers, active_assertions=[sx_str(a) for a in A], stdout=out))
+                elif ans == "unsat" and verdict in ("refuted-certified", "refuted-oracles"):
+                    ctx.violation("wrong-unsat:%s" % tag,
+                                  "%s script with %s, %s: answered unsat; the assertions accepted and active there are satisfiable (%s)"
+                                  % (logic, cls, where, "model validated by the Coq-extracted evaluator" if verdict == "refuted-certified" else "z3 and cvc5 both sat; ORACLE-ONLY"),
+                                  dict(script="\n".join(cmds) + "\n", check_index=j + 1, answers=answers, active_assertions=[sx_str(a) for a in A], model=detail, stdout=out))
+        info["verdicts"].append(verdict)
+        kind = "%s:%s:%s:%s%s" % ("twin" if is_twin else "oof", tag, "multi" if len(cis) > 1 else "single",
+                                  "error" if ans.startswith("(error") else (ans if ans in ANS else "no-answer"), (":" + str(verdict)) if verdict else "")
+        ctx.case(key=(text, j), nontrivial=True, kind=kind)
+    info["verdict"] = info["verdicts"][-1] if info["verdicts"] else None
     return info
 
 
@@ -369,7 +380,7 @@ def run(ctx):
         m = re.search(r"cls=(\S+)", open(p).read())
         items.append(dict(cmds=cmds, logic=logic, cls=m.group(1) if m else "corpus", twin={"QF_IDL": "QF_LIA", "QF_RDL": "QF_LRA"}.get(logic),
                           family="corpus", oracle_logic="ALL", text=og.with_marks(cmds)))
-    n = 160 if ctx.quick else 5000
+    n = 140 if ctx.quick else 5000
     for i in range(n):
         r = random.Random(ctx.seed * 7919 + i * 13 + 29)
         items.append(og.gen(r))
@@ -395,12 +406,12 @@ def run(ctx):
     for d in items:
         e = by_item.get(id(d), {})
         if "own" in e and "twin" in e:
-            a, b = e["own"][0].get("answer"), e["twin"][0].get("answer")
-            if {a, b} == {"sat", "unsat"} and not e["own"][0]["rejected"] and not e["twin"][0]["rejected"]:
-                ndiff += 1
-                if "diff" not in SAMPLES:
-                    SAMPLES["diff"] = dict(script="\n".join(d["cmds"]), declared_logic=d["logic"], answer=a, embedding_logic=d["twin"], answer_in_embedding_logic=b,
-                                           verdict_of_judge=e["own"][0].get("verdict"))
+            for a, b in zip(e["own"][0].get("answers") or [], e["twin"][0].get("answers") or []):
+                if {a, b} == {"sat", "unsat"} and not e["own"][0]["rejected"] and not e["twin"][0]["rejected"]:
+                    ndiff += 1
+                    if "diff" not in SAMPLES:
+                        SAMPLES["diff"] = dict(script="\n".join(d["cmds"]), declared_logic=d["logic"], answers=e["own"][0].get("answers"), embedding_logic=d["twin"],
+                                               answers_in_embedding_logic=e["twin"][0].get("answers"), verdict_of_judge=e["own"][0].get("verdicts"))
         if "own" in e and d["family"] != "corpus" and ("s_" + d["family"]) not in SAMPLES:
             SAMPLES["s_" + d["family"]] = dict(script="\n".join(d["cmds"]), cls=d["cls"], status=e["own"][0]["status"], answer=e["own"][0].get("answer"),
                                                errors=[x[1] for x in e["own"][0].get("errors", [])][:3], verdict=e["own"][0].get("verdict"))
